@@ -15,6 +15,7 @@ Terms:  ('lit', v) ('param', name) ('const', def) ('fn', def) ('ctor', Variant, 
 """
 from facts import callee_of, call_args, loc
 import hirq
+import facts as facts_mod
 
 MAX_PATHS = 4000
 
@@ -98,8 +99,9 @@ def lit(v):
     return ('lit', v)
 
 class Interp:
-    def __init__(self, facts, body, summaries=None, unroll=1, inline=None, field_hook=None, for_once=False):
+    def __init__(self, facts, body, summaries=None, unroll=1, inline=None, field_hook=None, for_once=False, result_combinators=False):
         self.field_hook = field_hook
+        self.result_combinators = result_combinators   # model Result::{map_err, ok, err} by cases instead of as opaque calls
         self.for_once = for_once      # `for` loops run exactly once over a generic element (shape extraction)
         self.facts = facts
         self.body = body            # hirq.Body
@@ -141,7 +143,7 @@ class Interp:
         if rec is None or getattr(self, '_depth', 0) > 6:
             return None
         B = hirq.Body(self.facts, rec)
-        sub = Interp(self.facts, B, self.summaries, self.unroll, self.inline, self.field_hook, self.for_once)
+        sub = Interp(self.facts, B, self.summaries, self.unroll, self.inline, self.field_hook, self.for_once, self.result_combinators)
         sub._depth = getattr(self, '_depth', 0) + 1
         env = {}
         states = [St(env, st.heap, st.ev, st.pc, st.ctr)]
@@ -512,15 +514,19 @@ class Interp:
                 outs.append(o); continue
             itv = o.val
             if self.for_once:
-                el, s1 = o.st.fresh('elem')
-                el = ('elem', itv, el[2])
-                for kind, s2 in self.match(e['pat'], el, s1):
-                    if kind == 'no':
-                        continue
-                    for b in self.ev(e['body'], s2):
-                        if b.kind == 'val' or (b.kind == 'cont' and (b.target is None or b.target == e.get('id'))):
-                            outs.append(Out('val', UNIT, b.st))
-                        elif b.kind == 'brk' and (b.target is None or b.target == e.get('id')):
+                def body_outs(s0, itv=itv):
+                    res = []
+                    el, s1 = s0.fresh('elem')
+                    el = ('elem', itv, el[2])
+                    for kind, s2 in self.match(e['pat'], el, s1):
+                        if kind != 'no':
+                            res.extend(self.ev(e['body'], s2))
+                    return res
+                def back(b):
+                    return b.kind == 'val' or (b.kind == 'cont' and (b.target is None or b.target == e.get('id')))
+                for s0 in self.carried_states(e, o.st, lambda s: [b.st for b in body_outs(s) if back(b)]):
+                    for b in body_outs(s0):
+                        if back(b) or (b.kind == 'brk' and (b.target is None or b.target == e.get('id'))):
                             outs.append(Out('val', UNIT, b.st))
                         else:
                             outs.append(b)
@@ -535,6 +541,66 @@ class Interp:
                 return res
             outs.extend(self.loop_common(e, o.st, one, always=True))
         return outs
+
+    def carried_states(self, loop, st, runner):
+        """The generic iteration of a loop starts in any state an earlier iteration can leave behind.  Candidates are the locals
+        declared outside the loop body and assigned inside it; the values they can carry are found by a small fixpoint iteration:
+        run the body (runner(state) -> states that reach the back edge) from the states known so far and collect the candidates'
+        values there.  Literal values are enumerated exactly, a boolean that receives a computed value takes both values, anything
+        else becomes an unknown ('carried', binding, n).  A variable whose every assignment leaves the loop is therefore not carried."""
+        cand, isbool = [], {}
+        for n, _c in facts_mod.walk(loop['body']):
+            if n.get('k') in ('Assign', 'AssignOp'):
+                l = hirq.peel_refs(n['l'])
+                if l.get('k') == 'Path' and l.get('res') == 'local' and l['bind'] in st.env:
+                    if l['bind'] not in cand:
+                        cand.append(l['bind'])
+                    isbool[l['bind']] = hirq.strip_refs(n['l'].get('ty') or '') == 'bool'
+        if not cand:
+            return [st]
+        cand.sort()
+        vals = {b: [st.env[b]] for b in cand}
+        wide = set()
+        def simple(v):
+            return v[0] == 'lit' or v == UNIT or (v[0] == 'ctor' and all(simple(x) for x in v[2]))
+        def product(events):
+            states = [st]
+            for b in cand:
+                nxt = []
+                for s in states:
+                    if b in wide:
+                        u, s2 = s.fresh('carried')
+                        t = ('carried', b, u[2])
+                        nxt.append(s2.set(b, t).event(('loop-carried', b, t, loop, st.env[b])) if events else s2.set(b, t))
+                    else:
+                        for v in vals[b]:
+                            nxt.append(s.set(b, v).event(('loop-carried', b, v, loop, st.env[b])) if events else s.set(b, v))
+                states = nxt
+                self.guard(len(states))
+            return states
+        for _round in range(4):
+            changed = False
+            for s in product(False):
+                for sb in runner(s):
+                    for b in cand:
+                        v = sb.env.get(b)
+                        if v is None or b in wide or v in vals[b] or (v[0] == 'carried' and v[1] == b):
+                            continue
+                        if simple(v) and len(vals[b]) < 4:
+                            vals[b].append(v); changed = True
+                        elif isbool[b]:
+                            for x in (FALSE, TRUE):
+                                if x not in vals[b]:
+                                    vals[b].append(x); changed = True
+                        else:
+                            wide.add(b); changed = True
+            if not changed:
+                break
+        else:
+            wide.update(cand)
+        if all(b not in wide and len(vals[b]) == 1 for b in cand):
+            return [st]
+        return product(True)
 
     def loop_common(self, e, st, one, always):
         lid = e.get('id')
@@ -718,6 +784,15 @@ class Interp:
             if n['k'] == 'Closure' and n.get('def') == fv[1]:
                 return n
         return None
+
+    def apply_generic(self, fv, args, node, st):
+        """The closure of an iterator adaptor applied to a generic element: state it captures and assigns is loop-carried."""
+        cn = self.closure_node(fv) if fv[0] == 'closure' else None
+        outs = []
+        runner = lambda s: [o.st for o in self.apply(fv, args, node, s) if o.kind == 'val']
+        for s in (self.carried_states(cn, st, runner) if cn is not None else [st]):
+            outs.extend(self.apply(fv, args, node, s))
+        return outs
 
     def apply_closure(self, fv, args, st, node):
         cn = self.closure_node(fv)
@@ -967,6 +1042,12 @@ def bin_term(op, a, b):
                 return ('lit', r())
         except Exception:
             pass
+    if op in ('BitOr', 'BitAnd', 'Or', 'And'):
+        for x, y in ((a, b), (b, a)):
+            if x[0] == 'lit' and isinstance(x[1], bool):
+                if op in ('BitOr', 'Or'):
+                    return TRUE if x[1] else y
+                return y if x[1] else FALSE
     # (x + c1) - c2  ->  x + (c1 - c2);  x + 0 -> x
     if op in ('Add', 'Sub') and b[0] == 'lit' and isinstance(b[1], int) and not isinstance(b[1], bool):
         k = b[1] if op == 'Add' else -b[1]
@@ -1108,6 +1189,29 @@ def builtin_summary(I, cal, args, node, st):
                 else:
                     outs.append(o)
         return outs
+    if I.result_combinators and is_res and name in ('map_err', 'ok', 'err') and args and (name != 'map_err' or (len(args) == 2 and args[1][0] in ('closure', 'fn'))):
+        v = args[0]
+        if v[0] == 'ctor' and v[1] in ('Ok', 'Err'):
+            cases = [(v[1], v[2][0] if v[2] else UNIT, st)]
+        else:
+            kt = st.variant_test(v, 'Ok', ['Ok', 'Err'])
+            cases = []
+            if kt != 'no':
+                cases.append(('Ok', ('variant', v, 'Ok', 0), st if kt == 'yes' else st.assume(('is', v, 'Ok'), True)))
+            if kt != 'yes':
+                cases.append(('Err', ('variant', v, 'Err', 0), st if kt == 'no' else st.assume(('is', v, 'Ok'), False)))
+        outs = []
+        for var, inner, s in cases:
+            if name == 'ok':
+                outs.append(Out('val', ('ctor', 'Some', (inner,)) if var == 'Ok' else ('ctor', 'None', ()), s))
+            elif name == 'err':
+                outs.append(Out('val', ('ctor', 'Some', (inner,)) if var == 'Err' else ('ctor', 'None', ()), s))
+            elif var == 'Ok':
+                outs.append(Out('val', ('ctor', 'Ok', (inner,)), s))
+            else:
+                for o in I.apply(args[1], [inner], node, s):
+                    outs.append(Out('val', ('ctor', 'Err', (o.val,)), o.st) if o.kind == 'val' else o)
+        return outs
     if name in ('is_empty', 'len') and args and args[0][0] == 'lit' and isinstance(args[0][1], (bytes, str)):
         return [Out('val', ('lit', len(args[0][1]) == 0 if name == 'is_empty' else len(args[0][1])), st)]
     if name in ('is_empty', 'len') and args and args[0][0] == 'vec' and cal.startswith('alloc::vec::Vec'):
@@ -1125,7 +1229,7 @@ def builtin_summary(I, cal, args, node, st):
         el, st2 = st.fresh('elem')
         el = ('elem', src, el[2])
         outs = []
-        for o in I.apply(args[1], [el], node, st2):
+        for o in I.apply_generic(args[1], [el], node, st2):
             if o.kind == 'val':
                 outs.append(Out('val', ('many', src, el, o.val), o.st))
             else:
@@ -1136,7 +1240,7 @@ def builtin_summary(I, cal, args, node, st):
         el, st2 = st.fresh('elem')
         el = ('elem', src, el[2])
         outs = []
-        for o in I.apply(args[1], [el], node, st2):
+        for o in I.apply_generic(args[1], [el], node, st2):
             if o.kind == 'val':
                 v = o.val
                 if v[0] == 'ctor' and v[1] == 'Some':
@@ -1153,7 +1257,7 @@ def builtin_summary(I, cal, args, node, st):
         el, st2 = st.fresh('elem')
         el = ('elem', src, el[2])
         outs = []
-        for o in I.apply(args[1], [el], node, st2):
+        for o in I.apply_generic(args[1], [el], node, st2):
             if o.kind == 'val':
                 for truth, s3 in I.decide(o.val, o.st):
                     outs.append(Out('val', ('many', src, el, el if truth else ('skip',)), s3))
